@@ -89,6 +89,10 @@ def plan(tier, seed):
         for level in ("1.5", "1.1"):
             for L, rpc in ((3, 1), (3, 2), (5, 2), (5, 3)):
                 cases.append({"spec": spec_for(level, L), "devs": [], "rpc": rpc, "label": f"{level} baseline L={L} rpc={rpc}"})
+    # more lines than one metadata request holds (default 1024), and hundreds of small requests
+    for level in ("1.5", "1.1"):
+        for L, rpc in ((1100, None), (1030, 1000), (300, 7), (260, 256)) if tier == "quick" else ((1100, None), (2100, None), (1030, 1000), (1025, 1024), (300, 7), (300, 1), (260, 256), (600, 64)):
+            cases.append({"spec": {"level": level, "images": [["HH", None, L, 1]]}, "devs": [], "rpc": rpc, "label": f"{level} baseline L={L} rpc={rpc or 'default'}"})
     # the same statement must hold when the image groups come out of an index cache: scans of one
     # polarisation (file names that differ only behind the last '.'), several polarisations, both levels
     multi = {
@@ -129,7 +133,7 @@ def run(res, tier, seed):
         "both record types; baselines L=1..3; every prefix field x {0,1,mid,max,high bit | every enum code | flag 0,1,2} on one"
         " line (quick) / each line (thorough), per-file constants on all lines; (year,day,ms) over 3 years x days"
         " {1,59,60,61,365,366} x ms {0,1,86399999}; us {0,1,86399999999}; 5 optional header fields x {blank,0,value,full width};"
-        " neighbour pairs full width (thorough); four-image products (two scans x two polarisations, four polarisations) uncached, while writing the index cache and through it. Every case is a distinct product compared on all /imagery leaves."
+        " neighbour pairs full width (thorough); images of 260..2100 lines (more than one metadata request at the default rpc, hundreds of small ones); four-image products (two scans x two polarisations, four polarisations) uncached, while writing the index cache and through it. Every case is a distinct product compared on all /imagery leaves."
     )
     res.assumptions = ["per-file constants are constant over the lines of a file (the property calls them constants)", "a blank interleaving id may surface as absent or as '' (C03 and C20 word it differently)"]
     unv = set()
